@@ -366,6 +366,22 @@ class VcfZarrSchema(core.JsonDataclass):
                 )
             )
 
+        # Arrays sharing a named dimension must agree on its size. A Number=R/A/G
+        # field whose observed size differs (e.g., absent on the records with
+        # the most alleles) gets a field specific dimension name instead.
+        shared_sizes = {"alleles": max_alleles, "alt_alleles": max_alleles - 1}
+        genotype_sizes = [
+            spec.shape[-1] for spec in array_specs if spec.dimensions[-1] == "genotypes"
+        ]
+        if len(genotype_sizes) > 0:
+            shared_sizes["genotypes"] = max(genotype_sizes)
+        for spec in array_specs:
+            dim = spec.dimensions[-1]
+            if spec.vcf_field is not None and dim in shared_sizes:
+                if spec.shape[-1] != shared_sizes[dim]:
+                    category, name = spec.vcf_field.split("/")
+                    spec.dimensions = (*spec.dimensions[:-1], f"{category}_{name}_dim")
+
         return VcfZarrSchema(
             format_version=ZARR_SCHEMA_FORMAT_VERSION,
             samples_chunk_size=samples_chunk_size,
